@@ -31,7 +31,7 @@ PROPS["C09"] = {
     "assumptions": ["payload bytes are a pure function of (seed, length)",
                     "a stream cut exactly after three continuation bytes may be reported as too-long or as unexpected EOF"],
     "units": [
-        U("c09_framing", "ext", "c09", "^TestVerifC09Framing$", (3000, 40000)),
+        U("c09_framing", "ext", "c09", "^TestVerifC09Framing$", (6000, 60000)),
         U("c09_budget", "ext", "c09", "^TestVerifC09Budget$", (2000, 20000), shards=(4, 8)),
         U("c09_padding", "ext", "c09", "^TestVerifC09Padding$", (500, 5000), shards=(2, 4)),
         U("c09_alloc", "ext", "c09", "^TestVerifC09Alloc$", (300, 3000), shards=(2, 4)),
@@ -86,7 +86,7 @@ PROPS["C08"] = {
     "assumptions": ["for malformed candidate lines (bad port/priority/component, unknown transport or type, zone, truncated) either outcome is accepted",
                     "comparison is made on pion's canonical re-marshalling of the input, which is what the stripping step emits"],
     "units": [
-        U("c08_strip", "ext", "c08", "^TestVerifC08Strip$", (2500, 40000)),
+        U("c08_strip", "ext", "c08", "^TestVerifC08Strip$", (8000, 60000)),
         U("c08_islocal", "ext", "c08", "^TestVerifC08IsLocal$", (2000, 20000), shards=(2, 4)),
     ],
 }
@@ -106,7 +106,7 @@ PROPS["C12"] = {
              "wrong-shape JSON or a valid encoding with one mutation, on which a successful decode must satisfy the "
              "validity predicate. Non-trivial = a string needing JSON escaping, an optional field absent, a doc or raw case."),
     "assumptions": ["versions '1', '1.', '1.x.y' may be accepted or rejected; only a major version other than 1 must be rejected"],
-    "units": [U("c12_messages", "ext", "c12", "^TestVerifC12Messages$", (8000, 100000))],
+    "units": [U("c12_messages", "ext", "c12", "^TestVerifC12Messages$", (20000, 150000))],
 }
 META["C12"] = {
     "level": "Sampled exploration of the field space and of hostile byte strings for all six codecs, with a written-down protocol model (defaults + validity predicate) as oracle; native fuzzing per decoder in the thorough tier.",
@@ -165,8 +165,8 @@ PROPS["C10"] = {
     "assumptions": ["whitespace rewriting keeps each pre element within the documented 32 KiB (the decoder may reject oversized elements)",
                     "markup inserted outside pre is well-formed and contains no pre/raw-text elements"],
     "units": [
-        U("c10_armor", "ext", "c10", "^TestVerifC10Armor$", (800, 10000), wedge_is_violation=True),
-        U("c10_decoder", "ext", "c10", "^TestVerifC10Decoder$", (1500, 20000), wedge_is_violation=True),
+        U("c10_armor", "ext", "c10", "^TestVerifC10Armor$", (2000, 15000), wedge_is_violation=True),
+        U("c10_decoder", "ext", "c10", "^TestVerifC10Decoder$", (4000, 30000), wedge_is_violation=True),
     ],
 }
 META["C10"] = {
@@ -206,7 +206,7 @@ PROPS["C04"] = {
              "within 12 fake seconds; then /debug reports 0, gauges sum to 0, heaps and id map are empty and a fresh client of "
              "each NAT type is told 'no proxies'. Non-trivial = a case with events tied at a timer instant."),
     "assumptions": ["the route table of the harness mux mirrors main()", "interleavings at a tie are sampled by repetition on the available cores, not enumerated"],
-    "units": [U("c04_herds", "inpkg", "broker", "^TestVerifC04Herds$", (250, 4000), timeout=(300, 3000), wedge_is_violation=True)],
+    "units": [U("c04_herds", "inpkg", "broker", "^TestVerifC04Herds$", (800, 6000), timeout=(300, 3000), wedge_is_violation=True)],
 }
 META["C04"] = {
     "level": "Sampled exploration of schedules on a harness-owned clock: timer ties are constructed exactly (not hoped for), the bound is exact in fake time, and 'no ghost' is checked on internal state and through the public endpoints.",
@@ -224,7 +224,7 @@ PROPS["C02"] = {
              "invariants (1)-(5) of DESIGN.md C02. Non-trivial = >= 2 matches overlapping in time, or a match through a "
              "non-default bridge (measured on the recorded history)."),
     "assumptions": ["answers are a function of (sid, offer received), so a mis-routed answer is recognisable", "the harness mux mirrors main()'s route table"],
-    "units": [U("c02_wiring", "inpkg", "broker", "^TestVerifC02Wiring$", (300, 5000), timeout=(300, 3000), wedge_is_violation=True)],
+    "units": [U("c02_wiring", "inpkg", "broker", "^TestVerifC02Wiring$", (1000, 8000), timeout=(300, 3000), wedge_is_violation=True)],
 }
 META["C02"] = {
     "level": "Sampled exploration of concurrent histories on a harness-owned clock with history invariants as oracle; all four client doors and both proxy doors are exercised against the same matcher.",
@@ -241,7 +241,7 @@ PROPS["C03"] = {
              "matrix x 2 proxy doors x 4 client doors, enumerated exhaustively."),
     "assumptions": ["for polls whose arrival or expiry coincides with the client's arrival either outcome is accepted"],
     "units": [
-        U("c03_matching", "inpkg", "broker", "^TestVerifC03Matching$", (500, 8000), timeout=(300, 3000), wedge_is_violation=True),
+        U("c03_matching", "inpkg", "broker", "^TestVerifC03Matching$", (1500, 12000), timeout=(300, 3000), wedge_is_violation=True),
         U("c03_matrix", "inpkg", "broker", "^TestVerifC03Matrix$", (1, 1), shards=(1, 1)),
     ],
 }
@@ -261,11 +261,16 @@ PROPS["C14"] = {
              "behave. Non-trivial = the sequence contains a body one mutation from valid, at the size limit, or a legacy offer. "
              "c14_legacy: for a generated (offer, NAT header, proxy present/answering/silent) the legacy request and its versioned "
              "equivalent are issued in equal broker states and must correspond (answer<->200+body, no proxies<->503, timed "
-             "out<->504, other error<->4xx/5xx), and the proxy must see the identical offer and NAT."),
-    "assumptions": ["requests are delivered to the handlers through httptest (no TCP): connection-level behaviour (keep-alive, pipelining) is covered only by the thorough wire tier"],
+             "out<->504, other error<->4xx/5xx), and the proxy must see the identical offer and NAT. "
+             "c14_wire (thorough only): the real broker binary on a loopback port, raw HTTP/1.1 over TCP: sequences of 1-8 requests on one "
+             "connection (keep-alive or pipelined), Expect: 100-continue, chunked bodies, bodies of 99 999 / 100 000 / 100 001 / 300 000 bytes, "
+             "legacy offers with any NAT header, mutated polls; every request must get a response that http.ReadResponse parses completely, "
+             "the process must keep accepting connections and the canaries must behave."),
+    "assumptions": ["quick tier: requests are delivered to the handlers through httptest (no TCP); connection-level behaviour (keep-alive, pipelining, dropped connections) is covered by the thorough wire tier against the broker binary"],
     "units": [
-        U("c14_http", "inpkg", "broker", "^TestVerifC14HTTP$", (250, 4000), timeout=(300, 3000), wedge_is_violation=True),
-        U("c14_legacy", "inpkg", "broker", "^TestVerifC14Legacy$", (300, 4000), timeout=(300, 3000), wedge_is_violation=True),
+        U("c14_http", "inpkg", "broker", "^TestVerifC14HTTP$", (800, 6000), timeout=(300, 3000), wedge_is_violation=True),
+        U("c14_legacy", "inpkg", "broker", "^TestVerifC14Legacy$", (800, 6000), timeout=(300, 3000), wedge_is_violation=True),
+        U("c14_wire", "ext", "c14wire", "^TestVerifC14Wire$", (0, 400), shards=(0, 6), timeout=(400, 1200), tiers=["thorough"]),
     ],
 }
 META["C14"] = {
@@ -273,7 +278,7 @@ META["C14"] = {
     "note": "Handlers are driven through httptest; a handler panic is equated with a dropped connection (net/http recovers and closes).",
     "technique": "property-based testing (rapid): generated request sequences with mutation of valid messages; no-panic/latency/after-state invariants; differential legacy-vs-versioned oracle",
 }
-PROPS["C11"]["units"].append(U("c11_ampequiv", "inpkg", "broker", "^TestVerifC11AMPEquiv$", (300, 4000), timeout=(300, 3000), wedge_is_violation=True))
+PROPS["C11"]["units"].append(U("c11_ampequiv", "inpkg", "broker", "^TestVerifC11AMPEquiv$", (800, 6000), timeout=(300, 3000), wedge_is_violation=True))
 PROPS["C11"]["rule"] += (" c11_ampequiv: generated polls (valid with any NAT/fingerprint/offer, one mutation from valid, random bytes, "
                          "undecodable paths) sent through GET /amp/client/<EncodePath(poll)> and through POST /client in equal broker "
                          "states (no proxy / answering proxy / silent proxy): the de-armored AMP body must equal the POST body.")
@@ -295,7 +300,7 @@ PROPS["C19"] = {
     "assumptions": ["unique-address figures count addresses of polls that were not rejected for their relay pattern (the code's reading of 'has polled')"],
     "units": [
         U("c19_bincount", "inpkg", "broker", "^TestVerifC19BinCount$", (2000, 20000), shards=(4, 8)),
-        U("c19_counters", "inpkg", "broker", "^TestVerifC19Counters$", (200, 3000), timeout=(300, 3000), wedge_is_violation=True),
+        U("c19_counters", "inpkg", "broker", "^TestVerifC19Counters$", (500, 4000), timeout=(300, 3000), wedge_is_violation=True),
         U("c19_journal", "ext", "c19", "^TestVerifC19Journal$", (400, 6000), timeout=(300, 3000)),
     ],
 }
@@ -304,7 +309,7 @@ META["C19"] = {
     "note": "Truth is derived from observed responses following doc/broker-spec.txt, not from the broker's internal branches.",
     "technique": "exhaustive enumeration + property-based testing (rapid) with reference counting model on a fake clock",
 }
-PROPS["C06"]["units"].append(U("c06_broker_reject", "inpkg", "broker", "^TestVerifC06BrokerReject$", (400, 5000), timeout=(300, 3000), wedge_is_violation=True))
+PROPS["C06"]["units"].append(U("c06_broker_reject", "inpkg", "broker", "^TestVerifC06BrokerReject$", (1000, 8000), timeout=(300, 3000), wedge_is_violation=True))
 PROPS["C06"]["rule"] += (" c06_broker_reject: generated (allowed, presumed, proxy pattern present/empty/absent, door) followed by a compatible "
                          "waiting client: if a constructed hostname is accepted by the allowed pattern and refused by the proxy's effective "
                          "pattern the poll must be answered 'incorrect relay pattern' immediately, must not appear in /debug and the client "
@@ -323,8 +328,8 @@ PROPS["C17"] = {
              "explicit-clock state machine on the inner map; c17_clientmap_rt: the real ClientMap with a short real timeout."),
     "assumptions": ["a dial in progress is not cancelled by Close (the connection never cancels its dial context before the dial returns); the scripted dialer therefore always returns"],
     "units": [
-        U("c17_redial", "ext", "c17", "^TestVerifC17Redial$", (400, 5000), timeout=(300, 3000), wedge_is_violation=True),
-        U("c17_queue", "ext", "c17", "^TestVerifC17Queue$", (300, 4000), timeout=(300, 3000)),
+        U("c17_redial", "ext", "c17", "^TestVerifC17Redial$", (1200, 8000), timeout=(300, 3000), wedge_is_violation=True),
+        U("c17_queue", "ext", "c17", "^TestVerifC17Queue$", (1000, 8000), timeout=(300, 3000)),
         U("c17_clientmap", "inpkg", "common/turbotunnel", "^TestVerifC17ClientMap$", (1500, 20000)),
         U("c17_clientmap_rt", "inpkg", "common/turbotunnel", "^TestVerifC17ClientMapRealTime$", (1, 1), shards=(2, 4)),
     ],
@@ -504,3 +509,13 @@ PROPS["C10"]["units"].append(F("c10_fuzz_rapid", "c10", "FuzzC10Rapid", 60))
 PROPS["C12"]["units"].append(F("c12_fuzz_decoders", "c12", "FuzzC12Decoders", 90))
 PROPS["C12"]["units"].append(F("c12_fuzz_rapid", "c12", "FuzzC12Rapid", 60))
 PROPS["C13"]["units"].append(F("c13_fuzz_deserialize", "c13", "FuzzC13Deserialize", 90))
+
+PROPS["C11"]["units"].append(U("c11_client_exchange", "inpkg", "client/lib", "^TestVerifC11ClientExchange$", (600, 6000), timeout=(300, 3000)))
+PROPS["C11"]["rule"] += (" c11_client_exchange: the client's HTTP and AMP rendezvous exchanges against a recording RoundTripper: broker/front/cache "
+                         "combinations, scripted status {200, 204, 3xx, 4xx, 5xx}, Location header on a 200 (AMP), HTTP bodies of 0 / 99 999 / 100 000 / "
+                         "100 001 / 100 002 / 1 MiB bytes, AMP documents whose length is steered to the limit -3..+20, cut inside the trailer, or "
+                         "re-flowed by a cache into short pre elements of whole base64 quanta with an element boundary exactly at the limit. Oracle: "
+                         "request shape (POST .../client with the poll; GET with the poll in the path, under the cache host), metamorphic fronting rule "
+                         "(with a front only URL.Host changes and the Host header names the unfronted host), and (data, nil) only for status 200 "
+                         "without silent redirect and a body within 100 000 bytes - then data is the whole payload; every other response is an error, "
+                         "never truncated data. Non-trivial = size within +-1..20 of the limit or a non-200 status.")
